@@ -54,13 +54,10 @@ package starlark
 //@   ensures val(result) == x
 //@ func isSmall
 //@   prop C10
-//@   requires x != nil
 //@   pure
 //@   ensures result <==> fits32(x.val)
 //@ func MakeBigInt
 //@   prop C10
-//@   requires x != nil
-//@   nopanic
 //@   ensures val(result) == old(x.val)
 //@   ensures x.val == old(x.val)
 
@@ -149,8 +146,6 @@ package starlark
 //@   ensures val(result) == -val(x) - 1
 //@ func AsInt32
 //@   prop C10 C13
-//@   requires x != nil
-//@   nopanic
 //@   results r err
 //@   ensures err == nil <==> (typeis(x, Int) && fits32(val(as(x, Int))))
 //@   ensures err == nil ==> r == val(as(x, Int))
@@ -205,7 +200,7 @@ package starlark
 //@ func CompareDepth
 //@   prop C11 C10 C06
 //@   modifies nothing
-//@   requires x != nil && y != nil && iscmp(op)
+//@   requires iscmp(op)
 //@   ensures int_float: depth >= 1 && typeis(x, Int) && typeis(y, Float) ==> err == nil && result0 == tw(op, ifcmp(val(as(x, Int)), as(y, Float)))
 //@   ensures float_int: depth >= 1 && typeis(x, Float) && typeis(y, Int) ==> err == nil && result0 == tw(op, -ifcmp(val(as(y, Int)), as(x, Float)))
 //@   ensures depth_guard: depth < 1 ==> err != nil
@@ -273,15 +268,11 @@ package starlark
 
 //@ func List.checkMutable
 //@   prop C04 C06
-//@   requires l != nil
 //@   pure
-//@   nopanic
 //@   ensures result == nil <==> (!l.frozen && l.itercount == 0)
 //@ func hashtable.checkMutable
 //@   prop C04 C06
-//@   requires ht != nil
 //@   pure
-//@   nopanic
 //@   ensures result == nil <==> (!ht.frozen && ht.itercount == 0)
 
 // Frame contracts of the Value interface family. For implementations inside this module they
@@ -295,20 +286,20 @@ package starlark
 //@ func Value.Truth
 //@   modifies nothing
 //@ func Comparable.CompareSameType
+//@   prop C11
+//@   requires iscmp(op)
 //@   modifies nothing
 //@ func TotallyOrdered.Cmp
 //@   modifies nothing
 //@ func Equal
 //@   prop C06
-//@   requires x != nil && y != nil
 //@   modifies nothing
 //@ func EqualDepth
 //@   prop C06
-//@   requires x != nil && y != nil
 //@   modifies nothing
 //@ func Compare
-//@   prop C06
-//@   requires x != nil && y != nil && iscmp(op)
+//@   prop C06 C11
+//@   requires iscmp(op)
 //@   modifies nothing
 
 // ---- iteration (C06). g_open counts iterators acquired and not yet released by the
@@ -327,7 +318,6 @@ package starlark
 //@   modifies *p
 //@ func Iterate
 //@   prop C06
-//@   requires x != nil
 //@   modifies List.itercount, hashtable.itercount, g_open
 //@   ensures result != nil ==> g_open == old(g_open) + 1 && only(List.itercount, x) && only(hashtable.itercount, sub(x, 0))
 //@   ensures result == nil ==> g_open == old(g_open) && unchanged(List.itercount) && unchanged(hashtable.itercount)
@@ -361,14 +351,14 @@ package starlark
 //@   ensures !it.ht.frozen ==> it.ht.itercount == wrapu32(old(it.ht.itercount) - 1)
 
 //@ func hashtable.init
-//@   prop C04 C06
-//@   requires ht != nil && !ht.frozen && ht.itercount == 0
+//@   prop C04 C05 C06
+//@   requires !ht.frozen && ht.itercount == 0
 //@ func hashtable.grow
-//@   prop C04 C06
-//@   requires ht != nil && !ht.frozen && ht.itercount == 0
+//@   prop C04 C05 C06
+//@   requires !ht.frozen && ht.itercount == 0
 //@ func listExtend
 //@   prop C04 C06
-//@   requires x != nil && y != nil && !x.frozen && x.itercount == 0
+//@   requires x != nil && !x.frozen && x.itercount == 0
 //@   invariant 1 !x.frozen && x.itercount == 0
 //@   ensures [C06] g_open == old(g_open)
 
@@ -427,3 +417,66 @@ package starlark
 //@ func ExecFileOptions
 //@   prop C04
 //@   ensures frozen_on_every_path: result0 != nil ==> frz(result0)
+
+//@ func sliceCompare
+//@   prop C11 C06
+//@   requires iscmp(op)
+//@   modifies nothing
+
+// ---- range (C10, C13): a rangeValue denotes start, start+step, ... (len elements); every
+// operation must agree with that mathematical sequence or fail.
+//@ typeinv [C10] rangeValue: self.step != 0 && self.len == rlen(self.start, self.stop, self.step)
+// x is the k-th element for some 0 <= k < len: the difference is an exact multiple of the step
+//@ specfn rhas(r rangeValue, x int) bool = mod(x - r.start, r.step) == 0 && 0 <= div(x - r.start, r.step) && div(x - r.start, r.step) < r.len
+//@ func rangeValue.Len
+//@   prop C10 C13
+//@   pure
+//@   ensures result == r.len
+//@ func rangeValue.Index
+//@   prop C10 C13
+//@   requires 0 <= i && i < r.len
+//@   ensures exact: typeis(result, Int) && val(as(result, Int)) == r.start + i * r.step
+//@ func rangeValue.Slice
+//@   prop C10 C13
+//@   requires step != 0
+//@   requires step > 0 ==> 0 <= start && start <= end && end <= r.len
+//@   requires step < 0 ==> -1 <= end && end <= start && (start < r.len || start == end)
+//@   ensures sublen: typeis(result, rangeValue) && as(result, rangeValue).len == rlen(start, end, step)
+//@   ensures substart: rlen(start, end, step) > 0 ==> as(result, rangeValue).start == r.start + start * r.step
+//@   ensures substep: rlen(start, end, step) > 1 ==> as(result, rangeValue).step == r.step * step
+//@ func rangeValue.contains
+//@   prop C10
+//@   ensures member: result <==> rhas(r, val(x))
+//@ func rangeEqual
+//@   prop C10 C11
+//@   pure
+//@   ensures result <==> (x.len == y.len && (x.len == 0 || (x.start == y.start && (x.len == 1 || x.step == y.step))))
+
+// ---- float -> int (C10)
+//@ lemma [C10] big_floats_integral(f float): isFinite(f) && (f >= 9223372036854775808.0 || f < -9223372036854775808.0) ==> isIntegral(f)
+//@ func finiteFloatToInt
+//@   prop C10
+//@   requires isFinite(f)
+//@   apply /rat := f.rational\(\)/ big_floats_integral(f)
+//@   ensures truncates: val(result) == trunc(f)
+//@ func NumberToInt
+//@   prop C10
+//@   ensures int_unchanged: typeis(x, Int) ==> err == nil && val(result0) == val(as(x, Int))
+//@   ensures float_truncated: typeis(x, Float) && isFinite(as(x, Float)) ==> err == nil && val(result0) == trunc(as(x, Float))
+//@   ensures float_nonfinite: typeis(x, Float) && !isFinite(as(x, Float)) ==> err != nil
+//@   ensures others_rejected: x != nil && !typeis(x, Int) && !typeis(x, Float) ==> err != nil
+// a float is in a range only if it is integral (1.5 in range(3) must be False)
+//@ func rangeValue.Has
+//@   prop C10
+//@   ensures ints: typeis(y, Int) ==> err == nil && (result0 <==> rhas(r, val(as(y, Int))))
+//@   ensures floats: typeis(y, Float) && err == nil ==> (result0 <==> (isIntegral(as(y, Float)) && rhas(r, trunc(as(y, Float)))))
+// enumerate must count with mathematical integers
+//@ func enumerate
+//@   prop C10
+//@   assert /pair\[1\] = x/ exact_known_len: typeis(pair[0], Int) && val(as(pair[0], Int)) == start + i
+//@   assert /pairs = append\(pairs, pair\)/#2 exact_unknown_len: typeis(pair[0], Int) && val(as(pair[0], Int)) == start + i
+
+//@ func isFinite
+//@   prop C10 C11
+//@   pure
+//@   ensures result <==> isFinite(f)
